@@ -43,7 +43,7 @@ def main(tier):
         mr = mitcross.mit_reply_cross(wd)
         run.extra["kdcreplycheck_vs_mit_client"] = {k: v for k, v in mr.items() if k != "first"}
         if mr.get("disagreements"):
-            raise vlib.Inconclusive("KDCReplyCheck and MIT's client disagree on %d perturbed replies: %s" % (mr["disagreements"], mr["first"]))
+            vlib.spec_validation_problem(run, "KDCReplyCheck and MIT's client disagree on %d perturbed replies: %s" % (mr["disagreements"], mr["first"]))
         # ---- the password-change exchange (KPasswd.tla), bound end to end: replies of a service the client can authenticate, and an attacker's
         import sysk5
         info, slines, problem = sysk5.run_kpasswd(run, quick=not run.thorough)
